@@ -101,18 +101,21 @@ def judge(tgt_bytes, srcs, line_out):
         return None, False
     if not tgt.ok:
         return "library opens a target the reference parser rejects", False
-    refs = [Ref(s) for s in srcs]
+    refs = [Ref(bytes(s)) for s in srcs]
+    hashdb = [not getattr(s, "wmode", False) for s in srcs]     # a write-mode source has no lookup tables before op H
     n = len(tgt.h.chunks)
     flags, pairs, T = [0] * n, ["-"] * n, tgt_bytes
     interesting = False
     for (name, ret, fl, pr, T2) in p["ops"]:
         o = name[0]
-        k = int(name[1:]) if len(name) > 1 and o != "M" else 0
+        k = int(name[1:]) if len(name) > 1 and o not in "M" else 0
         def byte(F, x):
             return F[x] if x < len(F) else 0
-        if o == "M":
+        if o in "MH":
             if T2 != T or fl != flags or pr != pairs:
-                return "%s (pairing two sources with each other) changed the target" % name, False
+                return "%s (a call on the sources only) changed the target" % name, False
+            if o == "H":
+                hashdb[int(name[1:])] = True
             continue
         if o in "fzm" or ret == "nosrc":
             if T2 != T:
@@ -178,7 +181,7 @@ def judge(tgt_bytes, srcs, line_out):
                     if fl[i] != flags[i] or pr[i] != pairs[i]:
                         return "%s changed chunk %d whose flag was %d" % (name, i, flags[i]), False
                     continue
-                want = pair_index(src, tgt, i)
+                want = pair_index(src, tgt, i) if hashdb[k] else None
                 exp = ("%d:%d" % (k, want), 1) if want is not None else ("=", 0)
                 if (pr[i], fl[i]) != exp:
                     return "%s pairs chunk %d as %s/flag %d, the indexes say %s/flag %d" % (name, i, pr[i], fl[i], exp[0], exp[1]), True
@@ -216,6 +219,11 @@ def zck_file(wd, name, data, dict_data=None, uflag=False, manual=True, comp=None
 def header_of(f):
     r = Ref(f)
     return f[:r.doff]
+
+
+class W(bytes):
+    """source bytes offered as a WRITE-mode context (harness and driver get the hex with a leading W)"""
+    wmode = True
 
 
 def gen_cases(rng, tier, wd):
@@ -374,6 +382,28 @@ def gen_cases(rng, tier, wd):
             SAp = variants[2][1]
             if SAp:
                 out.append(("cross-comp-noflag", [SAp], header_of(TU), "m0,c0"))
+            # the lookup tables rebuilt by hand first; a target entry whose UNCOMPRESSED checksum is the STORED checksum of a
+            # source chunk of the same size (tables keyed with the wrong checksum would pair them); one-sided flags
+            out.append(("cross-comp-uflag", [SAu], header_of(TU), "H0,m0"))          # read-mode source: H is refused, no effect
+            for ops in ("m0", "H0,m0", "H0,H0,m0"):
+                out.append(("cross-comp-uflag-wsrc", [W(SAu)], header_of(TU), ops))   # write-mode source: tables only after H
+            if SAp:
+                out.append(("cross-comp-noflag-wsrc", [W(SAp)], header_of(TU), "H0,m0"))
+            ra = Ref(SAu)
+            if ra.ok and len(ra.h.chunks) > 2:
+                hh = copy.deepcopy(Ref(TU).h)
+                for j in (1, 2):
+                    sdg, sud, sclen, sulen = ra.h.chunks[j]
+                    if j < len(hh.chunks) and len(sdg) == len(hh.chunks[j][0]):
+                        hh.chunks[j] = (hh.chunks[j][0], sdg, hh.chunks[j][2], sulen)
+                for ops in ("m0", "H0,m0", "H0,H0,m0,c0"):
+                    out.append(("cross-comp-uflag-crafted", [SAu], hh.build(), ops))
+                out.append(("cross-comp-uflag-crafted-wsrc", [W(SAu)], hh.build(), "H0,m0"))
+            TUn, _ = zckfmt.build_file(chunksB, ht=1, cht=1, flags=0)
+            for ops in ("m0", "H0,m0,c0"):
+                out.append(("cross-comp-oneflag", [SAu], header_of(TUn), ops))
+                if SAp:
+                    out.append(("cross-comp-oneflag", [SAp], header_of(TU), ops))
         # the same with dictionaries: every dictionary entry carries the uncompressed digest of the EMPTY message
         # (comp_init never feeds the dictionary into that hash), so only the length keeps different dictionaries apart
         for k, (ld1, ld2) in enumerate(((2000, 3000), (300, 300), (64, 65))):
@@ -401,7 +431,7 @@ def run(res, tier, only_case=None):
         cases = [(only_case["case"].get("tag", "replay"), [vlib.unhex(x) for x in toks[2:2 + ns]], vlib.unhex(toks[2 + ns]), toks[3 + ns])]
     else:
         cases = gen_cases(rng, tier, wd)
-    lines = ["K %d %s %s %s" % (len(srcs), " ".join(vlib.hexs(s) for s in srcs), vlib.hexs(t), ops) for _, srcs, t, ops in cases]
+    lines = ["K %d %s %s %s" % (len(srcs), " ".join(("W" if getattr(s, "wmode", False) else "") + vlib.hexs(bytes(s)) for s in srcs), vlib.hexs(t), ops) for _, srcs, t, ops in cases]
     model = vlib.ensure_model("C08")
     impl = vlib.ensure_harness("zh_c08", "asan")
     env = {"ZH_TMP": wd}
